@@ -720,7 +720,7 @@ fn gen_writes(rec: &mut Rec, rng: &mut Rng, cases: u64, keep_going: bool) {
                     let closing = steps >= n_ops;
                     let r = if closing { rng.below(6) } else { rng.below(if deep { 14 } else { 10 }) };
                     line = match r {
-                        0 => format!("{} bool {}", lvl, if lvl == "w" { *rng.pick(&[0u64, 1, 2, 255, 4294967295]) } else { rng.below(2) }),
+                        0 => format!("{} bool {}", lvl, if lvl == "w" { *rng.pick(&[0u64, 1, 2, 255, 256, 512, 65536, 0x8000_0000, 0xffff_ff00, 4294967295]) } else { rng.below(2) }),
                         1 => format!("{} null", lvl),
                         2 => format!("{} i32 {}", lvl, if rng.chance(2, 3) { *rng.pick(I32S) } else { (rng.next() as i32) as i64 }),
                         3 => format!("{} f64 {:016x}", lvl, f64_bits(rng)),
@@ -1370,10 +1370,29 @@ fn gen_invocations(rec: &mut Rec, rng: &mut Rng, cases: u64) {
         let n_inv = rng.range(1, 4) as usize;
         let interns: Vec<Vec<u8>> = (0..rng.range(0, 3)).map(|_| mp::gen_key(rng)).collect();
         let mut invs: Vec<(Vec<u8>, Vec<String>)> = Vec::new();
-        for _ in 0..=n_inv {
-            let doc = gen_doc(rng, false);
+        for k in 0..=n_inv {
+            let mut doc = gen_doc(rng, false);
             let na = rng.range(2, 25) as usize;
-            let acts = gen_activity(rng, na, interns.len());
+            let mut acts = gen_activity(rng, na, interns.len());
+            if k < n_inv && rng.chance(1, 3) {
+                // an earlier invocation that leaves big buffers behind: more than the output's initial
+                // capacity written (finished, or abandoned inside a container), a long input
+                let big = *rng.pick(&[1025usize, 1100, 2048, 5000, 70000]);
+                let payload: Vec<u8> = (0..big).map(|i| b'a' + (i % 23) as u8).collect();
+                let mut pre = Vec::new();
+                if rng.chance(1, 2) {
+                    pre.push("w arr 3".to_string());
+                }
+                pre.push(format!("w str {}", hex0(&payload)));
+                pre.append(&mut acts);
+                acts = pre;
+                if rng.chance(1, 2) {
+                    let mut d = vec![0xdb];
+                    d.extend_from_slice(&(big as u32).to_be_bytes());
+                    d.extend_from_slice(&payload);
+                    doc = d;
+                }
+            }
             invs.push((doc, acts));
         }
         rec.case("c13");
